@@ -111,7 +111,7 @@ def pair_case(draw):
     s = draw(_structure(allow_dc=False))
     lv = leaves_of(s)
     va = [_values_for(draw, lf) for lf in lv]
-    muts = [draw(st.sampled_from(["same"] * 5 + ["tweak", "tiny", "append1", "bcast", "recast", "lossy", "fresh", "none_b", "none_ab", "str_ab", "str_diff"]))
+    muts = [draw(st.sampled_from(["same"] * 5 + ["tweak", "tiny", "append1", "bcast", "recast", "lossy", "fresh", "none_b", "none_ab", "str_ab", "str_diff", "negzero"]))
             for _ in lv]
     fresh = [_values_for(draw, lf) if m == "fresh" else None for lf, m in zip(lv, muts)]
     pos = [draw(st.integers(0, 1000)) for _ in lv]
@@ -238,6 +238,12 @@ def _mutate(leaf, vals, mut, fresh, pos):
         return a.copy()
     if mut == "fresh":
         return mk_np(leaf, fresh)
+    if mut == "negzero":
+        # numerically equal, bitwise different: every zero of a float leaf carries the other sign (0.0 == -0.0)
+        b = a.copy()
+        if np.issubdtype(b.dtype, np.floating):
+            b = np.where(a == 0, np.copysign(np.zeros_like(a), -np.copysign(1.0, a)), a).astype(a.dtype)
+        return b
     if mut == "tweak" or (mut == "tiny" and not leaf["dtype"].startswith("float")):
         b = a.copy()
         flat = b.reshape(-1)
